@@ -1094,7 +1094,8 @@ def _other_ops(P, name, D, shape, rng_state):
           ("cumprod", lambda X: X.cumprod(0).tensor() if X.dim() > 1 else X.tensor()), ("alg.Jr", lambda X: X.Log().Jr())]
     out = []
     for label, f in fw:
-        out.append((f"{name}.{label}", lambda f=f: f(G()[0])))
+        if len(shape) <= 1 and n == 1:      # forward alone on the degenerate shapes; elsewhere the backward variant contains the forward
+            out.append((f"{name}.{label}", lambda f=f: f(G()[0])))
 
         def bw(f=f):
             X, base = G(True)
